@@ -27,8 +27,9 @@ RULE = ("One case = one call sequence of EngineBase.propagate on a real engine o
 ASSUMPTIONS = [
     "external binaries are absent: the programs are simulated at file-format and process-API level "
     "(physics is irrelevant to the property); GROMACS' own velocity generation is out of scope",
-    "a program that exits 0 having written fewer frames than asked is not injected (the property does not "
-    "say what the engine should do)",
+    "a program that exits 0 before the requested number of steps IS injected, but a verdict is given only "
+    "when the frames it wrote contain the end of the path (first crossing or maxlen); otherwise the "
+    "property does not say what the engine should do",
     "retrace tolerance 1e-6 (text precision of a restart frame), order tolerance 1e-9",
 ]
 REAL = ["EngineBase.propagate/dump_frame/add_to_path", "LAMMPSEngine._propagate_from/_extract_frame/"
@@ -91,6 +92,7 @@ def make_case(seed, i, tier):
         "chunk_mode": rng.choice(["mixed", "mixed", "mixed", "frame", "burst", "bytes", "all"]),
         "fail": rng.choice([None, None, None, "maybe", "yes"]),
         "instant": rng.random() < 0.2,
+        "early_exit": rng.random() < 0.25,
         "shuffle_ids": rng.random() < 0.8,
         "retrace": rng.random() < 0.3,
         "eng_seed": rng.randrange(1 << 30),
@@ -228,7 +230,16 @@ def _check_call(case, ctx, path, success, raised, prog, reverse, maxlen, start_o
     kc = next((i for i, o in enumerate(orders) if o < left or o > right), None)
     stop_k = min(kc, maxlen - 1) if kc is not None else maxlen - 1
     avail = prog._limit()
-    failing = prog.fail_at is not None
+    failing = prog.fail_at is not None and not getattr(prog, "early", False)
+    if stop_k >= avail and getattr(prog, "early", False):
+        # a normal exit before the frames needed to end the path: the property does not say what
+        # the engine should do, no verdict
+        if raised is None:
+            for i, pp in enumerate(path.phasepoints):
+                if abs(float(pp.order[0]) - orders[i]) > 2e-6 * max(1.0, abs(orders[i])):
+                    raise Bad("order_not_from_frame", f"{eng}: frame {i} stored {float(pp.order[0])!r}, own "
+                              f"coordinates give {orders[i]!r}", site=eng)
+        return "unspecified_early_exit"
     if stop_k >= avail:
         # the program ended before the propagation could end
         if not failing:
@@ -482,7 +493,7 @@ def shrink_candidates(case):
             if scn.get(key) != val:
                 yield dict(case, scn=dict(scn, **{key: val}))
         return
-    for key, val in (("retrace", False), ("fail", None), ("instant", False), ("box_growth", 0.0),
+    for key, val in (("retrace", False), ("fail", None), ("instant", False), ("early_exit", False), ("box_growth", 0.0),
                      ("shuffle_ids", False), ("reverse", False), ("op", "Distance"), ("geometry", "plain"),
                      ("subcycles", 1), ("chunk_mode", "frame"), ("maxlen", 6), ("cross_after", 2)):
         if scn.get(key) != val:
